@@ -6,11 +6,11 @@ Import ListNotations.
 From BWPlanner Require Import Terms Rows Clause Store Fetch.
 
 (* getBoundValueForComponent(r, [b1, b2]) *)
-Definition bound_value (r : row) (b1 b2 : str) : option cell :=
+Definition bound_value (e : cfg) (r : row) (b1 b2 : str) : option cell :=
   match get r b1, get r b2 with
   | Some v, None => Some v
   | None, Some v => Some v
-  | Some v1, Some v2 => if cell_eqb v1 v2 then Some v1 else None
+  | Some v1, Some v2 => if same_value e v1 v2 then Some v1 else None
   | None, None => None
   end.
 
@@ -41,10 +41,10 @@ Definition null_row (bs : list str) (r : row) : row :=
      alias (a predicate), and - only when the anchor did not give it - the time bounds are updated from the row;
    O likewise (anchor binding, else cellToObject of the object binding / alias), then the bounds again.
    updateTimeBoundsForRow reads only the bound fields of the clause, which are never assigned. *)
-Definition spec_S (c : clause) (r : row) : option node :=
+Definition spec_S (e : cfg) (c : clause) (r : row) : option node :=
   match cS c with
   | Some s => Some s
-  | None => match bound_value r (cSB c) (cSA c) with
+  | None => match bound_value e r (cSB c) (cSA c) with
             | Some (CNode n) => Some n
             | _ => None
             end
@@ -61,10 +61,10 @@ Definition spec_P_anchor (c : clause) (r : row) : option pred :=
             else None
   end.
 
-Definition spec_P (c : clause) (r : row) (pa : option pred) : option pred :=
+Definition spec_P (e : cfg) (c : clause) (r : row) (pa : option pred) : option pred :=
   match pa with
   | Some p => Some p
-  | None => match bound_value r (cPB c) (cPA c) with
+  | None => match bound_value e r (cPB c) (cPA c) with
             | Some (CPred p) => Some p
             | _ => None
             end
@@ -84,7 +84,7 @@ Definition spec_O_anchor (c : clause) (r : row) : option obj :=
 Definition spec_O (e : cfg) (c : clause) (r : row) (oa : option obj) : objres :=
   match oa with
   | Some o => ObjOk o
-  | None => match bound_value r (cOB c) (cOA c) with
+  | None => match bound_value e r (cOB c) (cOA c) with
             | Some v => cell_to_object e v
             | None => ObjNone
             end
@@ -110,7 +110,7 @@ Definition add_specified_data (e : cfg) (gs : list graph) (lo : lopts) (c : clau
     match ores with
     | ObjInvalid => Panic SiteStrObject
     | _ =>
-      let c5 := with_SPO c (spec_S c r) (spec_P c r pa) (objres_opt ores) in
+      let c5 := with_SPO c (spec_S e c r) (spec_P e c r pa) (objres_opt ores) in
       bind (simple_fetch e gs c5 lo5) (fun rows =>
         let rows' := if fix14 e then filter (compatible r) rows else rows in
         match rows' with
